@@ -100,6 +100,15 @@ Proof.
 Qed.
 Print Assumptions C09_global_derivative_tables.
 
+(* ElementGlobal family, the defining functionals: the REAL gdof of every class, run on symbolic vertices / recorders,
+   is per local DOF exactly the functional its dofname denotes (value, the partial derivative with that multi-index,
+   normal derivative at that edge) at the canonical location of the entity the DOF layout attaches it to (the vertex,
+   the mean of the facet's vertices, the mean of all vertices), and that location is the doflocs row.  The basis is
+   V^-1 of the matrix of these functionals on the monomials (numerical inverse: duality itself is oracle-checked). *)
+Theorem C09_global_functionals_as_named : forall g, In g global_functionals -> gdof_spec g.
+Proof. intros g Hg. apply gdof_ok_sound. exact (proj1 (Forall_forall _ _) global_gdof_ok g Hg). Qed.
+Print Assumptions C09_global_functionals_as_named.
+
 (* pderiv IS the formal derivative: additive, Leibniz, variables, constants (any ring over Q) *)
 Theorem C09_pderiv_is_formal_derivative :
   forall (R : Type) (rO rI : R) (radd rmul rsub : R -> R -> R) (ropp : R -> R) (req : R -> R -> Prop) (phi : Q -> R),
